@@ -874,6 +874,33 @@ def fam_kernels(g, prop, count, types):
     return out
 
 
+def fam_kernels_big(g, prop, count, types):
+    """factor pairs of order 8..14 with narrow supernodes (maxsuper 2..3, no relaxation): several multi-column supernodes
+    and singletons, each with rows below its diagonal block, in one L -- the triangular kernels then run through every
+    branch several times per call (state carried from one supernode to the next must be reset)"""
+    out = {}
+    for ty, k in split_types(count, types).items():
+        cplx = is_cplx(ty)
+        lst = []
+        for i in range(k):
+            r = g.r
+            n = r.randint(8, 14)
+            A = g.lu_product(n, cplx)
+            tune = [r.randint(1, 4), 1, r.choice([2, 2, 3]), r.randint(1, 4), r.randint(1, 3), 30, r.randint(1, 6)]
+            lines = ["tune " + " ".join(map(str, tune))] + g.mat_lines(A, n, n, "NC", cplx) + opt_lines({"default": 0, "ColPerm": NATURAL}) + ["call gstrf", "requireok"]
+            combos = [(u, t, d) for u in "LU" for t in "NTC" for d in "UN"]
+            for (u, t, d) in r.sample(combos, 6):
+                lines += [vec_line("vecx", small_vec(g, n, cplx), 1, cplx), "call trsv %s %s %s" % (u, t, d)]
+            for tr in (0, 1, 2):
+                nrhs = r.randint(1, 3); ldb = n + r.choice([0, 2])
+                B = [small_vec(g, n, cplx) for _ in range(nrhs)]
+                lines += g.rhs_lines(B, n, nrhs, ldb, cplx) + ["call gstrs %d" % tr]
+            lines += ["call gscon 1", "call gscon I", "destroy all", "ledger"]
+            lst.append({"id": "%s-kernelsbig-%05d-%s" % (prop, i, ty), "lines": lines, "n": n})
+        out[ty] = lst
+    return out
+
+
 # ----------------------------------------------------------------------------- C15
 DROP_BASIC, DROP_PROWS, DROP_COLUMN, DROP_AREA, DROP_SECONDARY, DROP_DYNAMIC, DROP_INTERP = 1, 2, 4, 8, 0x0E, 0x10, 0x100
 
